@@ -154,6 +154,10 @@ def tlc(spec, cfg, workers=None, timeout=600, env=None, simulate=None, depth=Non
     if m:
         r.generated = int(m.group(1).replace(",", ""))
         r.distinct = int(m.group(2).replace(",", ""))
+    if not m:
+        ms = re.search(r"The number of states generated: (\d+)", out)      # -simulate
+        if ms:
+            r.generated = int(ms.group(1))
     m = re.search(r"depth of the complete state graph search is (\d+)", out)
     if m:
         r.depth = int(m.group(1))
